@@ -81,7 +81,8 @@ Deser(t, j) ==
          [] OTHER -> FromPlain(j)
 
 \* ---- configurations and the valid values enumerated for them -------------------------------------
-Cfg0 == [lo |-> NoB, hi |-> NoB, il |-> TRUE, ih |-> TRUE, an |-> FALSE, it |-> "none", objs |-> "strs", cls |-> "int"]
+Cfg0 == [lo |-> NoB, hi |-> NoB, il |-> TRUE, ih |-> TRUE, an |-> FALSE, it |-> "none", objs |-> "strs", cls |-> "int",
+         dn |-> FALSE]    \* dn: declared without a default, which leaves the default None (ListSelector; Selector without objects)
 BOOL == {TRUE, FALSE}
 Norm(CS) == {c \in CS : (c.lo = NoB => c.il) /\ (c.hi = NoB => c.ih)}
 Bounded == Norm({[Cfg0 EXCEPT !.lo = lo, !.hi = hi, !.il = il, !.ih = ih, !.an = an] :
@@ -90,7 +91,9 @@ AN == {[Cfg0 EXCEPT !.an = an] : an \in BOOL}
 Cfgs(t) ==
   CASE t \in {"Integer", "Number", "Range"} -> Bounded
     [] t = "List" -> {[Cfg0 EXCEPT !.an = an, !.it = it] : an \in BOOL, it \in {"none", "int", "str", "float"}}
-    [] t \in {"Selector", "ListSelector"} -> {[Cfg0 EXCEPT !.an = an, !.objs = o] : an \in BOOL, o \in {"strs", "ints", "mixed", "dictints"}}
+    [] t = "Selector" -> {[Cfg0 EXCEPT !.an = an, !.objs = o] : an \in BOOL, o \in {"strs", "ints", "mixed", "dictints"}}
+                         \cup {[Cfg0 EXCEPT !.an = an, !.objs = "empty", !.dn = TRUE] : an \in BOOL}
+    [] t = "ListSelector" -> {[Cfg0 EXCEPT !.an = an, !.objs = o, !.dn = dn] : an \in BOOL, o \in {"strs", "ints", "mixed", "dictints"}, dn \in BOOL}
     [] t = "ClassSelector" -> {[Cfg0 EXCEPT !.an = an, !.cls = c] : an \in BOOL, c \in {"int", "str", "float", "intstr", "bool", "list", "dict"}}
     [] OTHER -> AN
 
@@ -100,9 +103,11 @@ InB(v, c) == /\ (c.lo = NoB \/ IF c.il THEN Ord(v) >= c.lo ELSE Ord(v) > c.lo)
 Ints == {I(-1), I(0), I(1), I(2), I(4), I(5)}
 Nums == Ints \cup {F(-3), F(0), F(1), F(3), F(8), F(9)}
 ObjsOf(c) == CASE c.objs = "strs" -> {S("a"), S("b")} [] c.objs = "ints" -> {I(1), I(2)} [] c.objs = "mixed" -> {I(1), S("a"), F(3)}
+               [] c.objs = "empty" -> {}
                [] c.objs = "dictints" -> {I(1), I(2)}        \* declared as a dict {"one": 1, "two": 2}: the objects are its values
+Nullable(c) == c.an \/ c.dn          \* None is a state the object can be in
 Vals(t, c) ==
-  (IF c.an THEN {None} ELSE {}) \cup
+  (IF Nullable(c) THEN {None} ELSE {}) \cup
   CASE t = "Integer" -> {v \in Ints : InB(v, c)}
     [] t = "Number" -> {v \in Nums : InB(v, c)}
     [] t = "String" -> {S(""), S("a1"), S("unicode"), S("null"), S("1")}     \* strings that look like other JSON
@@ -151,7 +156,7 @@ Base(t, c) ==
     [] t = "Selector" -> [Sch("any") EXCEPT !.enum = EnumOf(c)]
     [] t = "ListSelector" -> [Sch("array") EXCEPT !.items = [Sch("any") EXCEPT !.enum = EnumOf(c)]]
     [] t = "ClassSelector" -> ClsSchema(c.cls)
-Schema(t, c) == IF c.an THEN [Sch("any") EXCEPT !.anyOf = <<Base(t, c), Sch("null")>>] ELSE Base(t, c)
+Schema(t, c) == IF Nullable(c) THEN [Sch("any") EXCEPT !.anyOf = <<Base(t, c), Sch("null")>>] ELSE Base(t, c)
 
 JType(j) == CASE j.j = "null" -> "null" [] j.j = "bool" -> "boolean" [] j.j = "str" -> "string"
               [] j.j = "arr" -> "array" [] j.j = "obj" -> "object" [] j.j = "num" -> IF j.int THEN "integer" ELSE "number"
@@ -185,7 +190,7 @@ OutOfBoundsRejected ==
      \A j \in Probes : (~InB([n2 |-> j.n2], c)) => ~Validates(Schema(t, c), j)
 
 \* serialization of a whole object {x, other} under subset=: exactly the named parameters, the empty subset included
-ParamNames == {"x", "other"}
+ParamNames == {"x", "values"}      \* ("values": a parameter named like an attribute of the .param namespace)
 SubsetKeys == [sub \in SUBSET ParamNames |-> sub]
 Table == [t |-> t, c |-> c,
           subsets |-> {[sub |-> sub, keys |-> SubsetKeys[sub]] : sub \in SUBSET ParamNames},
